@@ -14,9 +14,9 @@
 //! and whitespace, so that prettyplease and rustfmt outputs agree); holes of the
 //! templates go into the `out` record. Anything else is an error.
 
-mod bindgroups;
+pub mod bindgroups;
 mod entries;
-mod types;
+pub mod types;
 
 use crate::coqfmt::{app, b, list, opt};
 use crate::tokpat::{is_exact, norm, show};
